@@ -387,7 +387,12 @@ def run_subject(case, env, tmpdir, state, res, rnd):
                 fault = (i, p, exc_factory(exc), exc)
                 try:
                     pr, outcome, errs = run_once(case, env, tmpdir, state, fault, res)
-                except Exception:
+                except Exception as e:
+                    from ..env import HarnessTimeout
+
+                    if isinstance(e, HarnessTimeout):
+                        res.inconclusive.append("harness time-out (not a verdict): %s" % str(e)[:600])
+                        continue
                     errs = [("harness-exception", traceback.format_exc()[-1200:])]
                     pr = None
                 res.count("fault runs")
@@ -429,10 +434,19 @@ def run_subject(case, env, tmpdir, state, res, rnd):
                       fault = (i, p, exc_factory(exc), exc)
                       try:
                           pr, outcome, errs = run_once(case, env, tmpdir, state, fault, res, buffered=bmode)
-                      except Exception:
+                      except Exception as e:
+                          from ..env import HarnessTimeout
+
+                          if isinstance(e, HarnessTimeout):
+                              res.inconclusive.append("harness time-out (not a verdict): %s" % str(e)[:600])
+                              continue
                           errs = [("harness-exception", traceback.format_exc()[-1200:])]
                           pr = None
                       res.count("fault runs")
+                      if pr is None and errs:
+                          for key, msg in errs:
+                              res.violation("C07:" + key, msg, dict(case, fault=[i, p, exc], buffered=bmode))
+                          continue
                       if pr is None or pr.skipped_cleanup or pr.fired is None:
                           res.count("faults skipped or not reached (buffered model)")
                           continue
